@@ -127,6 +127,13 @@ def check(ctx):
                 tlines.append(f'cl.agent {enc_keys(lb)} {enc_keys(ub)} {enc_pos(before)}')
             elif kind == 'search':
                 sp = L['SearchSpace'](n_agents=2, n_variables=nv, n_iterations=1, lower_bound=list(lb), upper_bound=list(ub))
+                if k % 5 == 0:
+                    # the population replaced through the public setter by fresh agents (which carry the default unit bounds):
+                    # enforcing the *space's* limits projects onto the space's box
+                    setup = 'replaced-agents'
+                    fresh = [L['Agent'](n_variables=nv, n_dimensions=1) for _ in range(2)]
+                    fresh[0].position = np.array(sp.agents[0].position, copy=True)
+                    sp.agents = fresh
                 # SearchSpace agents are (nv, 1); use a (nv, 1) slice of the generated position
                 pos1 = np.array(before[:, :1], copy=True)
                 before = np.array(pos1, copy=True)
@@ -140,7 +147,7 @@ def check(ctx):
                 lines.append(f'clip {enc_keys(lb)} {enc_keys(ub)} {enc_pos(before)}')
                 tlines.append(f'cl.search {enc_keys(lb)} {enc_keys(ub)} {enc_pos(before)}')
                 if not np.array_equal(other, sp.agents[0].position):
-                    C.issue('feasible-agent-moved', 'oracle', dict(how='clip', kind=kind, lb=lb, ub=ub, pos=other.tolist()))
+                    C.issue('feasible-agent-moved', 'oracle', dict(how='clip', kind=kind, lb=list(lb), ub=list(ub), pos=before.tolist(), setup=setup), untouched_agent=other.tolist())
             else:
                 sp = L['HyperSpace'](n_agents=1, n_variables=nv, n_dimensions=nd, n_iterations=1,
                                      lower_bound=list(lb), upper_bound=list(ub))
@@ -191,9 +198,25 @@ def check(ctx):
                 sp = L['HyperSpace'](n_agents=na, n_variables=nv, n_dimensions=nd, n_iterations=3, lower_bound=list(lb), upper_bound=list(ub))
                 shape, blo, bhi, alo, ahi = (nv, nd), [0.0] * nv, [1.0] * nv, [0.0] * nv, [1.0] * nv
             else:
-                sp = L['TreeSpace'](n_trees=na, n_terminals=2, n_variables=nv, n_iterations=3, min_depth=1, max_depth=2,
+                mind = C.rng.choice([1, 1, 2, 3])
+                maxd = mind + C.rng.choice([0, 0, 1, 2])       # (equal depths: every tree is a single terminal)
+                sp = L['TreeSpace'](n_trees=na, n_terminals=C.rng.randint(1, 3), n_variables=nv, n_iterations=3, min_depth=mind, max_depth=maxd,
                                     functions=['SUM'], lower_bound=list(lb), upper_bound=list(ub))
                 shape, blo, bhi, alo, ahi = (nv, 1), lb, ub, lb, ub
+                rp = dict(rp, min_depth=mind, max_depth=maxd)
+                # the terminals are agents too: sampled inside the box and carrying its bounds, and so are the values the
+                # initial trees hold
+                for tm in sp.terminals:
+                    q = tm.position
+                    if tuple(q.shape) != shape or np.any(q < np.asarray(blo, dtype=float)[:, None]) or np.any(q > np.asarray(bhi, dtype=float)[:, None]):
+                        C.issue('initial-position-infeasible', 'oracle', rp, pos=q.tolist(), what_='terminal')
+                    if not (np.array_equal(tm.lb, np.asarray(alo, dtype=float)) and np.array_equal(tm.ub, np.asarray(ahi, dtype=float))):
+                        C.issue('agent-bounds', 'oracle', rp, lb=tm.lb.tolist(), ub=tm.ub.tolist(), what_='terminal')
+                if mind == maxd:
+                    for tr in sp.trees:
+                        q = np.asarray(tr.position, dtype=float)
+                        if np.any(q < np.asarray(blo, dtype=float)[:, None]) or np.any(q > np.asarray(bhi, dtype=float)[:, None]):
+                            C.issue('initial-position-infeasible', 'oracle', rp, pos=q.tolist(), what_='single-terminal tree')
             if len(sp.agents) != na:
                 C.issue('wrong-population-size', 'oracle', rp, n=len(sp.agents))
             for a in sp.agents:
@@ -284,6 +307,10 @@ def replay(prop, payload):
         elif payload['kind'] == 'search':
             np.random.seed(1)
             sp = L['SearchSpace'](n_agents=2, n_variables=nv, n_iterations=1, lower_bound=list(lb), upper_bound=list(ub))
+            if payload.get('setup') == 'replaced-agents':
+                fresh = [L['Agent'](n_variables=nv, n_dimensions=1) for _ in range(2)]
+                fresh[0].position = np.array(sp.agents[0].position, copy=True)
+                sp.agents = fresh
             sp.agents[1].position = pos
             other = np.array(sp.agents[0].position, copy=True)
             sp.check_limits()
